@@ -56,4 +56,15 @@ def specs : Nodes → Option Report
     | none => specs rest
 end
 
+/-! ### the position word (compiler.go `newPos`, `pos.info`) -/
+
+/-- four 16-bit fields in a 64-bit word: file-name index, function-name index, line, column; line and
+    column saturate at 65535 -/
+def newPos (fi gi line col : Nat) : Nat :=
+  (fi <<< 48) ||| (gi <<< 32) ||| ((min line 0xffff) <<< 16) ||| (min col 0xffff)
+
+/-- `pos.info`: the four fields read back -/
+def posInfo (p : Nat) : Nat × Nat × Nat × Nat :=
+  ((p >>> 48) &&& 0xffff, (p >>> 32) &&& 0xffff, (p >>> 16) &&& 0xffff, p &&& 0xffff)
+
 end Goat.Backtrace
